@@ -101,6 +101,15 @@ func (b *BFS[S]) add(k Key, parent int32, label string, depth int) (int32, bool)
 	return id, true
 }
 
+// Lookup returns the id of the state with key k, if it was found.
+func (b *BFS[S]) Lookup(k Key) (int32, bool) {
+	sh := int(k[0]) % shards
+	b.seenMu[sh].Lock()
+	defer b.seenMu[sh].Unlock()
+	id, ok := b.seen[sh][k]
+	return id, ok
+}
+
 // Path returns the operation labels leading from an initial state to id.
 func (b *BFS[S]) Path(id int32) []string {
 	b.mu.Lock()
